@@ -9,6 +9,7 @@ protocol (only length/_peek_next/__next__ touch the iterator, __next__ consumes 
 look-ahead item before advancing, then shifts previtem/current); (skeletons) the emitted
 ``[Async]LoopContext(iter, undefined[, loop_render_func, depth])`` call matches __init__, the
 else indicator is set before the loop, cleared as the last body statement and tested after.
+Also: loop(children) always delegates to the loop function.  
 Not decided: the values over all iterables when both twins are edited alike beyond these forms.
 """
 
